@@ -52,7 +52,7 @@ def run(tier):
     # code -> spec: real fits validated against KauriTrace (gain = increase, pick = best, score = root + sum of gains)
     import random
     from vf.common import SEED
-    kauri.run_traces(rep, "C08", tier, random.Random(SEED + 8), budget=6 if tier == "quick" else 40)
+    kauri.run_traces(rep, "C08", tier, random.Random(SEED + 8), budget=14 if tier == "quick" else 40)
     rep.extra["candidate_kinds"] = dict(kinds)
     rep.extra["STALE-BUILD_disagreements_compiled_vs_pyx"] = stale
     for kind in ("star", "dstar", "switch", "realloc"):
